@@ -35,11 +35,12 @@ Definition E_TOO_LARGE : N := 4.   (* "utls: ClientHello too large: ..." *)
 
 (* [fix C02-clienthello-length-fields], inserted after helloLen is computed (u_conn.go:629):
      if len(hello.SessionId) > 0xff || len(hello.CipherSuites)*2 > 0xffff ||
-        len(hello.CompressionMethods) > 0xff || extensionsLen > 0xffff || helloLen > 0xffffff {
-        return errors.New("utls: ClientHello too large: ...") } *)
+        len(hello.CompressionMethods) > 0xff || extensionsLen > 0xffff {
+        return errors.New("utls: ClientHello too large: ...") }
+   (the uint24 handshake length then fits as well: Proofs/ChMarshalP.fits_hello_len) *)
 Definition fits (h : hello_hdr) (p : prepared) : bool :=
   (len (h_sid h) <=? 255) && (len (h_suites h) * 2 <=? 65535) && (len (h_comp h) <=? 255)
-  && (pr_extensions_len p <=? 65535) && (pr_hello_len p <=? 16777215).
+  && (pr_extensions_len p <=? 65535).
 
 (* MarshalClientHelloNoECH with the fix: lengths, the padding Update, the check, then the
    unchanged writes. *)
